@@ -312,7 +312,7 @@ UPSTAT = [0]
 def gen_cases(ctx):
     rng = ctx.rng
     lines = []
-    n = 2500 if ctx.quick else 40000
+    n = 2500 if ctx.quick else 160000
     kinds = {}
     for _ in range(n):
         b = rng.choice(B)
@@ -371,10 +371,21 @@ def batch_oracle(ctx, lines, impl):
         withs = [c for c in prog[1:] if isinstance(c, list) and c and c[0] == "with"]
         if prog[0] == "withq":
             withs = [prog[1]]
-        for w in withs:
+        nested = []
+        if prog[0] == "insert":
+            # the SELECT source of an INSERT is written unparenthesised: its own WITH clause is at depth 0 too -
+            # if that select_from() call was accepted (column count) and is still the source
+            for c in prog[1:]:
+                if isinstance(c, list) and c and c[0] == "selectfrom" and len(c) > 1 and isinstance(c[1], list):
+                    nested.append([x for x in c[1][1:] if isinstance(x, list) and x and x[0] == "with"])
+
+        def given_opt(w, opt):
             rec = any(isinstance(x, list) and x[0] == "recursive" for x in w[1:])
+            return 1 if (rec and b == "pg" and any(isinstance(x, list) and x[0] == opt.lower() for x in w[1:])) else 0
+        for w in (withs + [x for n_ in nested for x in n_])[:1]:
             for opt in ("SEARCH", "CYCLE"):
-                given = 1 if (rec and b == "pg" and any(isinstance(x, list) and x[0] == opt.lower() for x in w[1:])) else 0
+                given = sum(given_opt(x, opt) for x in withs)
+                allowed = {given} | {given + sum(given_opt(x, opt) for x in n_) for n_ in nested}
                 d0, cnt = 0, 0
                 for t in tl:
                     if t == ("C", "("):
@@ -383,8 +394,9 @@ def batch_oracle(ctx, lines, impl):
                         d0 -= 1
                     elif d0 == 0 and t == ("W", opt):
                         cnt += 1
-                if cnt != given and verdicts[i] is None:
-                    verdicts[i] = "%s given %d time(s) in the WITH clause but rendered %d time(s) on %s" % (opt, given, cnt, b)
+                if cnt not in allowed and verdicts[i] is None:
+                    verdicts[i] = "%s given %s time(s) in the WITH clause(s) but rendered %d time(s) on %s" % (
+                        opt, "/".join(str(x) for x in sorted(allowed)), cnt, b)
         # inline window definitions: each one read from the text is well-formed and is one the program gave
         # (presence of PARTITION BY / ORDER BY, frame unit and bounds); a window may be absent (clause not
         # rendered on this dialect), never different
